@@ -27,6 +27,7 @@ from gvsim import bootstrap
 from gvsim.bootstrap import HarnessError
 
 VERIF = bootstrap.VERIF
+OUT = os.environ.get('VERIF_OUT', VERIF)  # where evidence/ and replays/ are written (mutant runs redirect it)
 DEFAULT_SEED = {'quick': 20260926, 'thorough': 20260927}
 MAX_MINIMISED = 5
 RUN_ALARM_S = 120
@@ -315,9 +316,9 @@ def match_known(prop, sig):
 
 
 def write_replay(record, v, n_exec, orig_len):
-    os.makedirs(os.path.join(VERIF, 'replays'), exist_ok=True)
+    os.makedirs(os.path.join(OUT, 'replays'), exist_ok=True)
     name = f"{record['property']}-{record['seed']}-{record['run']}-{hashlib.sha256(vsig(v).encode()).hexdigest()[:6]}.json"
-    path = os.path.join(VERIF, 'replays', name)
+    path = os.path.join(OUT, 'replays', name)
     with open(path, 'w') as f:
         json.dump(
             {
@@ -531,8 +532,8 @@ def run_check(prop, tier, seed=None, runs=None, wall=None, workers=None, chunk=N
         },
         'assumptions': getattr(mod, 'ASSUMPTIONS', []),
     }
-    os.makedirs(os.path.join(VERIF, 'evidence'), exist_ok=True)
-    with open(os.path.join(VERIF, 'evidence', f'{prop}.json'), 'w') as f:
+    os.makedirs(os.path.join(OUT, 'evidence'), exist_ok=True)
+    with open(os.path.join(OUT, 'evidence', f'{prop}.json'), 'w') as f:
         json.dump(evidence, f, indent=1, sort_keys=True, default=str)
     for line in lines:
         print(line, flush=True)
